@@ -40,3 +40,8 @@ claim("C19", "exploration", "exhaustive enumeration of 8/16-bit operand domains 
       "fp_math helpers on every int16 value x 45 boundary operands x the operand types the call sites use (int, np.int16, np.int32), 32-bit helpers on a 190-point boundary lattice squared and all exponents, exp_on_negative_values on the 2^17-point Q5.26 lattice; QUANTIZE constant folding on all int8 / strided int16 constants x quantisation lattice and float constants at every half-integer multiple of the scale +-1 ulp; all 256 codes of every sigmoid/tanh/leaky-relu/hard-swish table taken from compiled output files over a quantisation lattice.",
       "References are written from the public gemmlowp/TFLite definitions (vfw/ref/quant.py); table entries within 1e-4 LSB of a tie accept both neighbours; hard-swish/leaky-relu entries may equal the TFLite integer kernel instead of the rounded real function; 32-bit operand products are a boundary lattice.",
       "DESIGN.md section 4 C19")
+
+claim("C15", "exploration", "bounded-exhaustive enumeration of an operation lattice x 6 accelerators through the public block-config query and the real generator, plus every kernel op of the network sweep, against a pinned shared-buffer oracle",
+      "For ~4000 op specs (conv both traversals, depthwise, max/avg pool with and without LUT, elementwise unary/binary/scalar/broadcast in 8/16/32 bit, nearest upscale; shapes incl. 1-D and non-multiple depths) x 6 accelerators every offered block configuration (quick: up to 12 evenly spaced per op; thorough: all) is handed to the real generator, must be accepted, and the decoded block and IB_END/AB_START/IB2_START/ACC_FORMAT registers must satisfy the bank arithmetic of A4; the same register check runs on every kernel op of every emitted stream.",
+      "Bank counts, granules, micro-blocks are pinned in vfw/npu/isa.py; the IFM block is derived from the OFM block by the receptive-field rule with the 8x8 sub-kernel limit.",
+      "DESIGN.md section 4 C15")
